@@ -1,13 +1,21 @@
 """Check registry: property id -> function(tier) -> exit code."""
 import json
 
-from . import chk_contract, chk_pyops
+from . import chk_buf, chk_contract, chk_pyops, chk_values
 
 CHECKS = {
     "C03": chk_pyops.check_C03,
     "C01": chk_pyops.check_C01,
     "C04": chk_contract.check_C04,
     "C02": chk_contract.check_C02,
+    "C05": chk_buf.check_C05,
+    "C06": chk_buf.check_C06,
+    "C07": chk_buf.check_C07,
+    "C15": chk_buf.check_C15,
+    "C11": chk_values.check_C11,
+    "C12": chk_values.check_C12,
+    "C16": chk_values.check_C16,
+    "C17": chk_values.check_C17,
 }
 
 
